@@ -429,7 +429,8 @@ LETTERS = ['a', 'b', 'Z', '0', '7', '-', '.', 'e', "'", ',', ';', '|', '\t', ':'
 
 def rnd_str(rng, sep, esc, clean, long=False):
     special = [sep, sep[0], sep[-1], '"', esc, ' ', '""', esc + '"', esc + esc, '"' + sep,
-               sep + '"', esc + sep, sep + esc, ' ' + sep + ' ']
+               sep + '"', esc + sep, sep + esc, ' ' + sep + ' ',
+               esc + 'n', esc + 't', esc + rng.choice('rn0abfvxuUN'), esc + esc + 'n', '\\n', '\\' + rng.choice('tr0x')]
     n = rng.randint(0, 80) if long else rng.choice([0, 0, 1, 1, 2, 3, rng.randint(0, 12)])
     s = ''.join(rng.choice(special if rng.random() < 0.5 else LETTERS) for _ in range(n))
     if rng.random() < 0.3:
@@ -719,6 +720,23 @@ def main(tier, replay):
     for (sp, es, kinds), rows in sorted(groups.items()):
         for i in range(0, len(rows), 60):
             traces.append(mem_trace(kinds, rows[i:i + 60], sp, es, op='enum-row'))
+    # The model's "letter" stands for every ordinary character: the same rows again with
+    # other letters in its place, among them those that follow a backslash in the escape
+    # sequences of other languages (the row format has no such sequences)
+    alt_letters = ['n', 't', 'r', '0', 'x', 'u', 'N', '\\'] if thorough else ['n', 't', '0']
+    n_alt = 0
+    for (sp, es, kinds), rows in sorted(groups.items()):
+        if 's' not in kinds:
+            continue
+        withl = [r for r in rows if any(isinstance(v, str) and 'a' in v for v in r)]
+        for L in alt_letters:
+            if L in sp or L == es:
+                continue
+            part = withl if thorough else rng.sample(withl, min(len(withl), 240))
+            alt = [tuple(v.replace('a', L) if isinstance(v, str) else v for v in r) for r in part]
+            for i in range(0, len(alt), 60):
+                traces.append(mem_trace(kinds, alt[i:i + 60], sp, es, op='enum-row'))
+                n_alt += len(alt[i:i + 60])
     n_enum_rows = sum(len(t['rows']) for t in traces)
 
     # numerals: direct call of parse_decimal against the model (informational), and the
@@ -844,7 +862,7 @@ def main(tier, replay):
                                  'constants': {k: str(v) for k, v in c.items()}, **r.summary()}
                                 for (m, c, r, role) in mc_stats],
         'model_rows_enumerated': n_enum,
-        'model_rows_replayed': n_enum_rows,
+        'model_rows_replayed': n_enum_rows, 'of_which_with_other_letters': n_alt,
         'model_rows_failing_roundtrip': {'trailing-esc': len(model_fail_rows), 'other': 0},
         'model_numerals_enumerated': len(model_nums),
         'model_numerals_failing': {'sign': len(model_fail_nums), 'other': 0,
